@@ -18,6 +18,7 @@ type c02Case struct {
 	Chunk int      `json:"chunk"`
 	EOFD  bool     `json:"eof_with_data"`
 	Delay int      `json:"delay"`
+	Stmt  bool     `json:"stmt_yields,omitempty"`
 }
 
 type c02 struct{ cached bool }
@@ -67,6 +68,7 @@ func (p c02) Gen(t *Tape, tier string, run int) interface{} {
 	}
 	c.EOFD = t.Bool("work")
 	c.Delay = t.Pick("work", 0, 0, 1, 2)
+	c.Stmt = t.Chance("work", 1, 4) && total <= 8192
 	if p.cached && total > 2048 {
 		// statement-level yields make cached runs expensive: no
 		// byte-granular disk access on larger files
@@ -86,6 +88,7 @@ func (p c02) Exec(x *Exec, ci interface{}) *Verdict {
 	}
 	x.Procs = c.Procs
 	x.StmtYields = p.cached
+	x.StmtAll = c.Stmt
 	exec := func(phase string, caches bool) (*histRunner, *Violation, string) {
 		file := &File{X: x, Name: "f", Data: img, Chunk: c.Chunk, EOFWithData: c.EOFD, MaxDelay: c.Delay}
 		var hr *histRunner
